@@ -249,6 +249,10 @@ func cmdCheck(args []string) {
 			if ob.Kind == "cover" || claimed[ob.Name] {
 				return true
 			}
+			if len(spec.Files) > 0 && safetyKinds[ob.Kind] {
+				// a sweep also decides panic sites that are new since the claims were taken
+				return true
+			}
 			_, isKnown := known[ob.Name]
 			return isKnown
 		}
@@ -302,6 +306,13 @@ func cmdCheck(args []string) {
 	for name := range claimed {
 		if ob, ok := byName[name]; ok && ob.Status == "unknown" {
 			retry = append(retry, ob)
+		}
+	}
+	if len(spec.Files) > 0 {
+		for name, ob := range byName {
+			if !claimed[name] && safetyKinds[ob.Kind] && ob.Status == "unknown" {
+				retry = append(retry, ob)
+			}
 		}
 	}
 	if len(retry) > 0 && os.Getenv("GOVC_NO_RETRY") == "" {
@@ -423,6 +434,13 @@ func cmdCheck(args []string) {
 			o := *ob
 			o.Desc = "(takes the place of a claimed obligation that is no longer generated) " + o.Desc
 			violations = append(violations, violation{ob: &o, reason: "renamed-" + ob.Status, res: resOf[name]})
+			continue
+		}
+		if len(spec.Files) > 0 && safetyKinds[ob.Kind] && (ob.Status == "refuted" || ob.Status == "unknown") {
+			// a sweep claims every panic site of the listed files: a new site that cannot be shown safe counts
+			o := *ob
+			o.Desc = "(new panic site in a swept file) " + o.Desc
+			violations = append(violations, violation{ob: &o, reason: "new-" + ob.Status, res: resOf[name]})
 			continue
 		}
 		undecidedNew = append(undecidedNew, name+" ["+ob.Status+"]")
